@@ -1,5 +1,5 @@
 ENGINES = [
-    dict(name="pyvc", path="pyvc/", serves_properties=["C17", "C14", "C02", "C01", "C10", "C11", "C16", "C19", "C03", "C04", "C05", "C12", "C13", "C20"],
+    dict(name="pyvc", path="pyvc/", serves_properties=["C17", "C14", "C02", "C01", "C10", "C11", "C16", "C19", "C03", "C04", "C05", "C12", "C13", "C20", "C06"],
          kind_free_text="E1: AST -> verification-condition generator / symbolic executor over the real source text of /repo, sidecar contracts, z3 (cvc5 fall-back)"),
     dict(name="tabinv", path="tabinv/", serves_properties=["C01", "C10", "C11"],
          kind_free_text="E2: exact-arithmetic ground obligations on the coefficient tables dumped from the imported classes"),
@@ -110,4 +110,12 @@ CHECKS["C20"] = dict(level="proof", engine="pyvc",
     note="terminal-event sub-steps (recursive integrate without callbacks) are covered with C09's event contract only natively; torch paths cut (A5)",
     technique="ghost call logs in the symbolic execution of integrate + state-machine contracts of DiffRHS + package-wide AST frame scan",
     design_ref="DESIGN.md section 4 C20")
+CHECKS["C06"] = dict(level="proof", engine="pyvc",
+    text="DenseOutput under contract with symbolic-length lists: add_interpolant keeps the ordering/coverage and cache invariants, lookup (value, gradient, vector) answers every query in the integrated range from the piece "
+         "whose interval contains it, remove_interpolant(0) drops the oldest piece; integrate() with dense output kept (forward): exactly one piece per recorded step spanning [t_i, t_i+1] on normal and exceptional exit and across "
+         "continued calls; dense_output() builds the Hermite piece from (t, y, f) at both ends; the integrators leave initial_rhs == rhs(t, y) and final_rhs == rhs(t + dTime, y + dState) whatever the previous call's end point "
+         "(with C17: nodes reproduced, C^1 joins with slopes equal to the right-hand side). Backward runs are a recorded known finding (F11).",
+    note="O(h^4) between nodes = cubic exactness (C17) + Peano kernel theorem (A8); Richardson wrappers only natively; events in C07-C09; A1",
+    technique="data-structure invariant over an abstract view (parallel z3 arrays), contracts at call sites, LinComb domain for the slope clause",
+    design_ref="DESIGN.md section 4 C06")
 NOT_APPLICABLE = {}
